@@ -250,6 +250,7 @@ func gen(r *Rand) Input {
 		}
 	}
 	addTiming(r.Fork(), &in, nrelays)
+	addActivation(r.Fork(), &in)
 	return in
 }
 
@@ -329,6 +330,84 @@ func addTiming(r *Rand, in *Input, nrelays int) {
 		}
 	}
 	in.Tags = append(in.Tags, "timed")
+}
+
+// ---------------------------------------------------------------------------------------------
+// Validators that are not validating all the time.  The accounts provider answers the accounts whose
+// validator is active AT THE EPOCH IT IS ASKED FOR; the registration job and the proposal preparer
+// ask for the next epoch, so that a validator that is about to be active is registered and prepared
+// before it can propose.  Half of the histories get a current epoch per operation (advancing) and,
+// per validator, an activation epoch and perhaps an exit epoch: active throughout, activating during
+// the history (so that at some operation its activation epoch is the next one), exiting during the
+// history (on its last epoch at some operation), pending far in the future, or in and out.  Drawn
+// from a fork at the very end of gen / genReal: the rest of the stream is as before.
+
+func addActivation(r *Rand, in *Input) {
+	if !r.Chance(1, 2) {
+		return
+	}
+	cur := uint64(r.Range(0, 40))
+	if r.Chance(1, 6) {
+		cur = 0
+	}
+	first := cur
+	epochs := make([]uint64, len(in.Ops))
+	for i := range in.Ops {
+		if i > 0 {
+			if in.Ops[i].Kind == "round" {
+				cur += uint64(r.Range(0, 2))
+			} else if r.Chance(1, 4) {
+				cur++
+			}
+		}
+		epochs[i] = cur
+		in.Ops[i].Epoch = cur
+	}
+	span := int(cur-first) + 2
+	from := make([]uint64, len(in.Validators))
+	until := make([]uint64, len(in.Validators))
+	for v := range in.Validators {
+		switch r.Intn(10) {
+		case 0, 1, 2: // validating throughout
+			if r.Bool() {
+				from[v] = uint64(r.Range(0, int(first)))
+			}
+		case 3, 4, 5, 6: // activating during the history
+			from[v] = first + uint64(r.Range(1, span))
+		case 7: // exiting during the history
+			until[v] = first + uint64(r.Range(1, span))
+		case 8: // pending, far away
+			from[v] = cur + uint64(r.Range(3, 100))
+		default: // in and out
+			from[v] = first + uint64(r.Range(1, span))
+			until[v] = from[v] + uint64(r.Range(1, 3))
+		}
+	}
+	// mostly make sure the decisive situation occurs: at some job round or preparation, some
+	// validator's activation epoch is exactly the next epoch
+	if r.Chance(3, 4) {
+		var cands []int
+		for i, op := range in.Ops {
+			if (op.Kind == "round" && !op.API || op.Kind == "prepare") && len(op.Vals) > 0 {
+				cands = append(cands, i)
+			}
+		}
+		if len(cands) > 0 {
+			i := cands[r.Intn(len(cands))]
+			v := in.Ops[i].Vals[r.Intn(len(in.Ops[i].Vals))].V
+			from[v] = epochs[i] + 1
+			if until[v] != 0 && until[v] <= from[v] {
+				until[v] = from[v] + uint64(r.Range(1, 3))
+			}
+		}
+	}
+	for i := range in.Ops {
+		for k := range in.Ops[i].Vals {
+			v := in.Ops[i].Vals[k].V
+			in.Ops[i].Vals[k].From, in.Ops[i].Vals[k].Until = from[v], until[v]
+		}
+	}
+	in.Tags = append(in.Tags, "activation")
 }
 
 // ---------------------------------------------------------------------------------------------
@@ -515,5 +594,6 @@ func genReal(r *Rand) Input {
 		}
 	}
 	addTiming(r.Fork(), &in, nrelays)
+	addActivation(r.Fork(), &in)
 	return in
 }
